@@ -1106,6 +1106,17 @@ Proof.
   - apply lin_brute_exact_lemma, lin_check_exact_lemma in E2. congruence.
 Qed.
 
+Lemma lin_check_perm_lemma : forall init h h', Permutation h h' -> lin_check init h = lin_check init h'.
+Proof.
+  assert (D : forall init h h', Permutation h h' -> lin_check init h = true -> lin_check init h' = true).
+  { intros init h h' P H. apply lin_check_exact_lemma in H. destruct H as [order [Po [Hl Hr]]].
+    apply lin_check_exact_lemma. exists order. split; [|split; assumption].
+    etransitivity; [exact Po|exact P]. }
+  intros init h h' P. destruct (lin_check init h) eqn:E1, (lin_check init h') eqn:E2; try reflexivity.
+  - rewrite (D _ _ _ P E1) in E2. discriminate.
+  - symmetry in P. rewrite (D _ _ _ P E2) in E1. discriminate.
+Qed.
+
 (* the keyed store satisfies the hypotheses of the per-key theorem, for any shard count *)
 Lemma store_key_local : forall (s : nat -> option (list N)) op k, store_touches op k = true ->
   store_kstep k (store_view s k) op =
